@@ -16,10 +16,9 @@ multi router of `C06Graphs.lean` (`multi_rows`, `multi_recv_lower`, `multi_recv_
 A *flow path* of a multiple-direction graph may choose ANY receiver other than the node itself at
 each step: `Path recvs i t k` says that `t` is reached from `i` by `k` such proper receiver steps.
 
-Hypotheses: exactly those of `C01_pflood_singleRouter` (`ScalarLaws S`, `hnb`, `hsym`, `hseeds`,
-`hnodup`, `hbase`).  The law `slope_above_lowest` of `ScalarLaws` is not used here (the multi
-router selects its receivers by elevation only, not by slope); it is kept only because the
-hypothesis is the same structure. -/
+Hypotheses: those of `C01_pflood_singleRouter` (`ScalarLaws S`, `hnb`, `hsym`, `hseeds`,
+`hnodup`, `hbase`) except `hslope` (`Fs.C04.HSlope`), which is not needed here: the multi
+router selects its receivers by elevation only, not by slope. -/
 namespace Fs.C01
 open Fs Fs.Flow Fs.C02
 
